@@ -20,6 +20,9 @@ def main():
         elif a.prop in ("C01", "C02", "C03"):
             from . import findops
             rc = findops.run(a.prop, a.tier, a.replay)
+        elif a.prop in ("C04", "C05", "C06", "C07", "C08"):
+            from . import replaceops
+            rc = replaceops.run(a.prop, a.tier, a.replay)
         else:
             print("no check registered for %s" % a.prop)
             rc = 2
